@@ -1180,14 +1180,23 @@ func ruleQueueDiscipline(c *Ctx, rule string) {
 				if call, isCall := x.(*ssa.Call); isCall && calleeName(call) == "(*container/list.List).Len" {
 					cond = true
 					k, isK := constInt(y)
-					if !(isK && k == 0 && op == token.EQL) {
+					push := listCalls(fn, "PushBack")
+					switch {
+					case isK && k == 0 && op == token.EQL:
+						// "was empty": Len must be read before the push
+						if len(push) == 1 && !dominates(call, push[0]) {
+							good = false
+							why = "queue length is compared with 0 after the enqueue"
+						}
+					case isK && k == 1 && op == token.EQL:
+						// "has just become non-empty": Len must be read after the push
+						if len(push) != 1 || !dominates(push[0], call) {
+							good = false
+							why = "queue length is compared with 1 before the enqueue"
+						}
+					default:
 						good = false
 						why = "the consumer is signalled only when Len() " + op.String() + " " + desc(y)
-					}
-					// Len must be read before the push
-					if push := listCalls(fn, "PushBack"); len(push) == 1 && !dominates(call, push[0]) {
-						good = false
-						why = "queue length is read after the enqueue"
 					}
 				}
 			}
@@ -1236,13 +1245,29 @@ func ruleQueueDiscipline(c *Ctx, rule string) {
 					empty = true
 				}
 			}
-			if !empty {
-				okDrain = false
+			if empty && fieldFlagFact(at, closedFlag, true) != nil {
+				return // tested right here: closed, and nothing queued
 			}
-			if fieldFlagFact(at, closedFlag, true) == nil {
+			// the condition-wait idiom (`for !cancelled && Len() == 0 && !closed { Wait() }` and the outcomes sorted out after
+			// the loop): on every feasible path since the last wake-up, the stream is closed and the queue empty
+			if !drainedOnEveryPath(fn, at, front[0], closedFlag, cancelFlag) {
 				okDrain = false
 			}
 		})
+		// nothing is handed out once the stream was cancelled (cancel discards what is queued; a frame that still arrives
+		// afterwards must not be delivered behind that gap): every return of an item has tested cancelled == false since the
+		// last wake-up
+		okLive, nItem := true, 0
+		forEachReturnValue(fn, okIdx, func(v ssa.Value, at ssa.Instruction) {
+			if isConstBool(v, false) {
+				return
+			}
+			nItem++
+			if !notCancelledOnEveryPath(fn, at, closedFlag, cancelFlag) {
+				okLive = false
+			}
+		})
+		c.check(okLive && nItem >= 1, rule, name+": no item handed out after cancel", w.Pos(fn.Pos()), "every item return follows a test that "+cancelFlag.Field+" is false", "dequeue can return an item although the stream was cancelled ("+cancelFlag.String()+" is not tested before the queue): cancel() discards the queued frames, a frame that arrives afterwards is delivered behind the gap — the application sees a message sequence with a hole")
 		c.check(okDrain && nExits >= 1, rule, name+": queued data drained before end-of-stream", w.Pos(fn.Pos()), "the closed exit is taken only with an empty queue", "dequeue can report end-of-stream while items are still queued (closed tested before the queue): messages sent before half-close/close_stream are lost")
 		// wait only when empty and not closed; loop re-tests after waking
 		waits := callsNamed(fn, "(*sync.Cond).Wait")
@@ -1715,4 +1740,159 @@ func ruleUpdateCallbackGuards(c *Ctx, rule12, rule13 string) {
 		c.check(held == "", rule13, key+": not under the stream's write mutex", w.At(e.Send), "may-lockset "+lf.MayAt(e.Send).String(), "the window update is sent while "+held+" may be held, the mutex SendMsg holds while it waits for credit: a goroutine that reads (and so returns credit) blocks behind the same stream's parked sender; with both directions busy the two ends wait for each other")
 	}
 	c.floor(rule12, n, 2, "window-update emit sites")
+}
+
+// drainedOnEveryPath: every feasible path from the function's entry, or from the return of a cond.Wait, to the exit `at`
+// establishes either cancelled == true, or closed == true together with an empty queue. The lock is held on all of such a
+// path, so repeated reads of one flag, Len() and Front() agree; a path is infeasible when its branch conditions disagree
+// about one of the three atoms (cancelled, closed, empty). Stores to a flag and list mutations forget the atom.
+func drainedOnEveryPath(fn *ssa.Function, at ssa.Instruction, front *ssa.Call, closedFlag, cancelFlag FieldRef) bool {
+	return dequeuePathsEstablish(fn, at, closedFlag, cancelFlag, func(known map[string]bool) bool {
+		return known["cancelled"] || (known["closed"] && known["empty"])
+	})
+}
+
+// notCancelledOnEveryPath: every feasible path since the last wake-up to `at` has tested cancelled == false.
+func notCancelledOnEveryPath(fn *ssa.Function, at ssa.Instruction, closedFlag, cancelFlag FieldRef) bool {
+	return dequeuePathsEstablish(fn, at, closedFlag, cancelFlag, func(known map[string]bool) bool {
+		tested, seen := known["cancelled?"]
+		_ = tested
+		return seen && !known["cancelled"]
+	})
+}
+
+func dequeuePathsEstablish(fn *ssa.Function, at ssa.Instruction, closedFlag, cancelFlag FieldRef, holds func(known map[string]bool) bool) bool {
+	type lits map[string]bool
+	atomOf := func(f EdgeFact) (string, bool, bool) {
+		f = normFact(f)
+		if fr, _, ok := loadedField(f.Cond); ok {
+			switch fr {
+			case closedFlag:
+				return "closed", f.True, true
+			case cancelFlag:
+				return "cancelled", f.True, true
+			}
+			return "", false, false
+		}
+		x, op, y, ok := cmpFact(f)
+		if !ok {
+			return "", false, false
+		}
+		if isNilConst(x) || func() bool { _, isK := constInt(x); return isK }() {
+			x, y = y, x
+			switch op {
+			case token.LSS:
+				op = token.GTR
+			case token.GTR:
+				op = token.LSS
+			case token.LEQ:
+				op = token.GEQ
+			case token.GEQ:
+				op = token.LEQ
+			}
+		}
+		call, isCall := stripConv(x).(*ssa.Call)
+		if !isCall {
+			return "", false, false
+		}
+		switch calleeName(call) {
+		case "(*container/list.List).Front":
+			if isNilConst(y) {
+				switch op {
+				case token.EQL:
+					return "empty", true, true
+				case token.NEQ:
+					return "empty", false, true
+				}
+			}
+		case "(*container/list.List).Len":
+			if k, isK := constInt(y); isK && k == 0 {
+				switch op {
+				case token.EQL, token.LEQ:
+					return "empty", true, true
+				case token.NEQ, token.GTR:
+					return "empty", false, true
+				}
+			}
+		}
+		return "", false, false
+	}
+	okAll := true
+	nPaths := 0
+	var walk func(b *ssa.BasicBlock, from int, known lits, onPath map[*ssa.BasicBlock]bool)
+	walk = func(b *ssa.BasicBlock, from int, known lits, onPath map[*ssa.BasicBlock]bool) {
+		if !okAll || nPaths > 4096 {
+			return
+		}
+		for i := from; i < len(b.Instrs); i++ {
+			in := b.Instrs[i]
+			if in == at {
+				nPaths++
+				if !holds(known) {
+					okAll = false
+				}
+				return
+			}
+			switch x := in.(type) {
+			case *ssa.Call:
+				n := calleeName(x)
+				if n == "(*sync.Cond).Wait" {
+					return // continued from that wake-up as a path of its own
+				}
+				if strings.HasPrefix(n, "(*container/list.List).") && n != "(*container/list.List).Front" && n != "(*container/list.List).Len" {
+					known = copyLits(known)
+					delete(known, "empty")
+					delete(known, "empty?")
+				}
+			case *ssa.Store:
+				if fr, _, ok := fieldOfAddr(x.Addr); ok && (fr == closedFlag || fr == cancelFlag) {
+					known = copyLits(known)
+					if fr == closedFlag {
+						delete(known, "closed")
+						delete(known, "closed?")
+					} else {
+						delete(known, "cancelled")
+						delete(known, "cancelled?")
+					}
+				}
+			}
+		}
+		for _, succ := range b.Succs {
+			if onPath[succ] {
+				continue
+			}
+			next := known
+			if ef, has := edgeFact(b, succ); has {
+				if atom, val, isAtom := atomOf(ef); isAtom {
+					if old, seen := known[atom+"?"]; seen && old != val {
+						continue // contradicts an earlier test of the same atom: infeasible
+					}
+					next = copyLits(known)
+					next[atom+"?"] = val
+					next[atom] = val
+				}
+			}
+			onPath[succ] = true
+			walk(succ, 0, next, onPath)
+			delete(onPath, succ)
+		}
+	}
+	if len(fn.Blocks) == 0 {
+		return false
+	}
+	walk(fn.Blocks[0], 0, lits{}, map[*ssa.BasicBlock]bool{fn.Blocks[0]: true})
+	for _, wt := range callsNamed(fn, "(*sync.Cond).Wait") {
+		if ci, ok := wt.(*ssa.Call); ok {
+			walk(ci.Block(), instrIndex(ci)+1, lits{}, map[*ssa.BasicBlock]bool{})
+		}
+	}
+	return okAll && nPaths > 0
+}
+
+func copyLits(m map[string]bool) map[string]bool {
+	out := make(map[string]bool, len(m)+2)
+	for k, v := range m {
+		out[k] = v
+	}
+	return out
 }
